@@ -515,7 +515,13 @@ func httpNode(h *harness) {
 	httpGridEntries(h, f, run, vpTree, post, tokenReq, audience)
 	var wg sync.WaitGroup
 	sem := make(chan struct{}, 6)
+	var afterwards []*entry
 	for _, e := range httpEntries {
+		if e.name == "http.discovery.register-search.grid" {
+			// registers on the service whose list http.discovery.register digests before and after each of its inputs: not beside it
+			afterwards = append(afterwards, e)
+			continue
+		}
 		wg.Add(1)
 		go func(e *entry) {
 			defer wg.Done()
@@ -526,6 +532,10 @@ func httpNode(h *harness) {
 		}(e)
 	}
 	wg.Wait()
+	for _, e := range afterwards {
+		st := h.st(e.name)
+		e.gen(h, e, func(in input) { h.one(e, st, in) })
+	}
 	time.Sleep(300 * time.Millisecond)
 	for _, report := range f.log.takeAll() {
 		top, repo := stackTextSite(report)
